@@ -794,6 +794,13 @@ func (c *Ctx) recurrentTable(name string) (known bool, bad string, cells int) {
 			return true, "with " + cell.String() + ": " + r.bad, cells
 		}
 		if outs == nil {
+			if cell.seqLens {
+				// kept for the whole run (the table is memoised across properties, tableCovered is per property)
+				if c.seqLensRefused == nil {
+					c.seqLensRefused = map[string]string{}
+				}
+				c.seqLensRefused[name] = "R40:recurrent-table:" + name
+			}
 			continue // attributes refused by Init (an activation name the library does not have): not this table's business
 		}
 		if cell.seqLens {
@@ -880,10 +887,10 @@ func ruleRecurrentTable(c *Ctx, prop string) {
 		if oi == nil {
 			continue
 		}
-		c.checkSequenceLensRefused(oi, name)
 		key := "R40:recurrent-table:" + name
 		site := c.pos(oi.methods["Apply"].Pos())
 		known, bad, cells := c.recurrentTable(name)
+		c.checkSequenceLensRefused(oi, name)
 		switch {
 		case !known:
 			c.note("R40", key, site, "the dataflow table cannot follow this code to one outcome per cell; the structural rules R12 decide")
@@ -967,6 +974,8 @@ func (c *Ctx) checkSequenceLensRefused(oi *opInfo, name string) {
 	}
 	if refused {
 		c.discharge("R12", key, site, "a sequence_lens input (inputs[4]) is refused with an error")
+	} else if t := c.seqLensCell(name); t != "" {
+		c.discharge("R12", key, site, "a sequence_lens input is refused with an error (shown by the cell of "+t+" that supplies one; the test is not a nil comparison of inputs[4] in Apply itself)")
 	} else {
 		c.undecided("R12", key, site, name+" does not refuse a sequence_lens input (inputs[4] != nil leads to no error return in Apply): whether every sample of the batch is processed up to its own length - later steps masked, the final state taken at its own last step - is outside what the rules and tables can establish")
 	}
@@ -978,4 +987,14 @@ func lastIf(b *ssa.BasicBlock) (*ssa.If, bool) {
 	}
 	iff, ok := b.Instrs[len(b.Instrs)-1].(*ssa.If)
 	return iff, ok
+}
+
+// seqLensCell: the table whose cell with a sequence_lens input saw the operator refuse it (R40's, or R48's, which is
+// walked for this purpose when R40 could not follow the operator).
+func (c *Ctx) seqLensCell(name string) string {
+	if t := c.seqLensRefused[name]; t != "" {
+		return t
+	}
+	c.recProvTable(name)
+	return c.seqLensRefused[name]
 }
